@@ -27,13 +27,13 @@ theorem nData_of_shape_c {tc : List Ev} (h : ∀ e ∈ tc, isClosed e = true ∨
   intro e he; rcases h e he with h1 | h1 <;> cases e <;> simp_all [isClosed, isConnect, isData]
 
 theorem nData_of_shape_a {t : Option Bytes} {ta : List Ev}
-    (h : ∀ e ∈ ta, HsTok t e ∨ isAccept e = true ∨ isClosed e = true) : nData ta = 0 := by
+    (h : ∀ e ∈ ta, HsTok t e ∨ isKeyEv e = true ∨ isClosed e = true) : nData ta = 0 := by
   unfold nData
   rw [List.length_eq_zero_iff, List.filter_eq_nil_iff]
   intro e he
   rcases h e he with ⟨_, _, _, rfl, _⟩ | h1 | h1
   · simp [isData]
-  · cases e <;> simp_all [isAccept, isData]
+  · cases e <;> simp_all [isAccept, isKeyEv, isData]
   · cases e <;> simp_all [isClosed, isData]
 
 /-- **C08 (transmission bounds).** For every peer and every state: an exchange transmits its request at
@@ -67,7 +67,7 @@ theorem tx_bounds (p : Params) (rx : Reactions) (s s' : S) (frame : Bytes) (retr
       · rcases k1 e he with h1 | h1 <;> cases e <;> simp_all [isClosed, isConnect, isData]
       · rcases k2 e he with ⟨_, _, _, rfl, _⟩ | h1 | h1
         · simp [isData] at hd
-        · cases e <;> simp_all [isAccept, isData]
+        · cases e <;> simp_all [isAccept, isKeyEv, isData]
         · cases e <;> simp_all [isClosed, isData]
     · rcases k3 e he with h1 | h1
       · exact h1
